@@ -343,7 +343,7 @@ def run(ctx):
 
     # ---- 2. model
     if _only(ctx, "model"):
-        cfgs = ["p11", "p23", "p43_q", "p83_q"] if q else ["p11", "p23", "p43", "p67", "p79", "p83", "p103"]
+        cfgs = ["p11", "p23_q", "p43_q", "p83_q"] if q else ["p11", "p23", "p43", "p67", "p79", "p83", "p103"]
         tlc_many(ctx, [dict(module="MC_ECDSA", cfg="MC_ECDSA_" + c, workers=4 if q else 8, timeout=3000) for c in cfgs], threads=4 if q else 2)
 
     # ---- 3. tables
@@ -431,11 +431,14 @@ def _production(ctx, params, recs_prod):
     jobs = []
     for name, native in backends:
         cs = cases[name]
-        step = 4 if native == "python" else 40
+        step = (6 if ctx.quick else 4) if native == "python" else 40
         for off in range(0, len(cs), step):
             ch = cs[off:off + step]
+            # quick tier, pure Python (verify ~0.1 s each): tamper classes / recovery / Key API for every third class only
             jobs.append((name, native, ch, {"curve": name, "key_api": True,
-                                            "cases": [{"d": hex(c["d"]), "z": hex(c["z"])} for c in ch]}))
+                                            "cases": [{"d": hex(c["d"]), "z": hex(c["z"]),
+                                                       "full": not (ctx.quick and native == "python") or (off + i) % 3 == 0}
+                                                      for i, c in enumerate(ch)]}))
     results = _run_jobs(jobs)
     total = 0
     seen_backend = {}
